@@ -10,7 +10,8 @@
     Model/FunctionsSpec.v.  Statements only; every one is for all N, all value
     sequences, all configurations and states — no bound on any length. *)
 From Shk Require Import Base.Prelude Model.Value Model.Functions Model.Expr Model.Fsm Model.Audit
-  Model.AuditSpec Model.FunctionsSpec Proofs.AuditProofs Proofs.FunctionsProofs Proofs.CollectProofs.
+  Model.AuditSpec Model.FunctionsSpec Proofs.AuditProofs Proofs.FunctionsProofs Proofs.CollectProofs
+  Proofs.CollectTraceProofs.
 From Coq Require Import Sorting.Sorted Sorting.Permutation Qabs.
 Open Scope list_scope.
 
@@ -185,6 +186,63 @@ Theorem c11_kept_across_periods : forall c final s ts vs s' o stt y,
   lookup_val y (s_vals s') = lookup_val y (s_vals s) /\
   (mem_var y (s_act s) = true -> mem_var y (s_act s') = true).
 Proof. exact kept_across_periods. Qed.
+
+(** * End to end *)
+
+(** [produced_rounds c s rs y] (Model/FunctionsSpec.v) lists the values the
+    clauses targeting [y] produced over the rounds [rs]: for every round, for
+    every auditor in declaration order that is active in that round (auditing
+    already — its closing round included — or starting now) and whose
+    activation condition's dependencies are fresh, for every clause of [y]
+    whose own dependencies are fresh: the value of its expression in the state
+    reached at that point.  For ANY sequence of rounds (any samples, mood
+    changes, final rounds; whatever the other clauses do; also when the
+    audition stops on an error): *)
+Theorem c11_collected_over_any_rounds : forall c y md n rs s s' stt,
+  md <> ASingle -> (1 <= n)%nat -> user_var y = true ->
+  (forall m, In m (c_members c) -> clauses_ok (m_assigns m) y md n) ->
+  (forall r, In r rs -> samples_have_actors (r_vs r)) ->
+  lookup_val y (s_vals s) = VArr [] ->
+  run_rounds c s rs = (s', stt) ->
+  lookup_val y (s_vals s') = VArr (collected md n (produced_rounds c s rs y)).
+Proof. exact collected_end_to_end. Qed.
+
+Theorem c11_computed_over_any_rounds : forall c y rs s s' stt,
+  user_var y = true ->
+  (forall m, In m (c_members c) -> clauses_single (m_assigns m) y) ->
+  (forall r, In r rs -> samples_have_actors (r_vs r)) ->
+  run_rounds c s rs = (s', stt) ->
+  lookup_val y (s_vals s') = last (non_nil (produced_rounds c s rs y)) (lookup_val y (s_vals s)).
+Proof. exact computed_end_to_end. Qed.
+
+(** Every event of the audit loop is zero, one or two such rounds ... *)
+Theorem c11_events_are_rounds : forall c s e,
+  let '(s', _, stt) := step_event c s e in run_rounds c s (event_rounds s e) = (s', stt).
+Proof. exact step_event_rounds. Qed.
+
+(** ... so, for every configuration and every event history that runs to its
+    end: a `collects y as first|last|top|bottom N` variable holds exactly the
+    first / last / N largest / N smallest non-nil values its expression
+    produced while its auditor was active, and a `computes` variable the
+    latest non-nil one. *)
+Theorem c11_collected_variable_end_to_end : forall c es os s' y md n,
+  md <> ASingle -> (1 <= n)%nat -> user_var y = true ->
+  (forall m, In m (c_members c) -> clauses_ok (m_assigns m) y md n) ->
+  signals_have_actors es ->
+  lookup_val y (c_init c) = VArr [] ->
+  run_audition c es = (os, s', Running) ->
+  lookup_val y (s_vals s') =
+  VArr (collected md n (produced_rounds c (init_st c) (audition_rounds c es) y)).
+Proof. exact audition_collected. Qed.
+
+Theorem c11_computed_variable_end_to_end : forall c es os s' y,
+  user_var y = true ->
+  (forall m, In m (c_members c) -> clauses_single (m_assigns m) y) ->
+  signals_have_actors es ->
+  run_audition c es = (os, s', Running) ->
+  lookup_val y (s_vals s') =
+  last (non_nil (produced_rounds c (init_st c) (audition_rounds c es) y)) (lookup_val y (c_init c)).
+Proof. exact audition_computed. Qed.
 
 (** * The array functions, over the non-nil elements *)
 
@@ -362,6 +420,21 @@ Example c11_nonvacuous_chain :
   lookup_val ("", "u")%string (s_vals s) = VArr [VNum 5; VNum 4] /\     (* 9 arrived between the periods *)
   lookup_val ("", "cnt")%string (s_vals s) = VNum 2 /\
   lookup_val ("", "late")%string (s_vals s) = VNum 2.
+Proof. vm_compute. repeat split; reflexivity. Qed.
+
+Definition ex11_events : list event :=
+  [EMood 1 "red"; ESig 2 [(("x", "s")%string, VNum 3)]; ESig 3 [(("x", "s")%string, VNum 5)];
+   EMood 4 "clear"; ESig 5 [(("x", "s")%string, VNum 9)];
+   EMood 6 "red"; ESig 7 [(("x", "s")%string, VNum 4)]; EFinal 8].
+
+(** What the clauses produced in that history: 9 arrived while al was not
+    auditing; bo's count is re-evaluated in every round once u is set. *)
+Example c11_nonvacuous_produced :
+  produced_rounds ex11_cfg (init_st ex11_cfg) (audition_rounds ex11_cfg ex11_events) ("", "u")%string
+    = [VNum 3; VNum 5; VNum 4] /\
+  List.length (audition_rounds ex11_cfg ex11_events) = 12%nat /\
+  (last (produced_rounds ex11_cfg (init_st ex11_cfg) (audition_rounds ex11_cfg ex11_events) ("", "cnt")%string) VNil)
+    = VNum 2.
 Proof. vm_compute. repeat split; reflexivity. Qed.
 
 Example c11_nonvacuous_functions :
